@@ -1,32 +1,56 @@
-(** C07 — property theorems only.  [Inv_flags] is the part of Inv_tree proved for the model
-    (proper tree, heights follow parents, failed parent => FAILED_CHILD, live blocks >= VALID_TREE).
-    _partial: the conjuncts "tips = usable blocks without usable child", "active chain = root..tip, all ACTIVE,
-    appliedBlockCount", "connected => ancestors connected", and the operations hdr / body / rmpl are not proved;
-    they are checked on the implementation after every step by harness/invariants.hpp. *)
+(** C07 — property theorems only.  [Inv_flags] is the part of Inv_tree proved for the model, for EVERY operation of both
+    trees (hdr / body / set / inv / reval / rm / rmpl; ALT with empty payloads and the PoW tree):
+    proper tree, heights follow parents, failed parent => FAILED_CHILD, live blocks >= VALID_TREE; together with
+    [tip_ok] it gives: the best chain root..tip runs through non-failed blocks only.
+    _partial: the conjuncts "tips = usable blocks without usable child", "ACTIVE <=> on the best chain,
+    appliedBlockCount = |chain|", "connected => ancestors connected" are not proved; they are checked on the
+    implementation after every step by harness/invariants.hpp (T1, C1, C2, V2). *)
 From Coq Require Import ZArith NArith List Bool.
-From VB Require Import Tree.TreeDefs Tree.TreeInv Tree.TreePass Tree.TreeProofs.
+From VB Require Import Tree.TreeDefs Tree.TreeInv Tree.TreePass Tree.TreeProofs Tree.TreeExact Tree.TreeMono
+  Tree.TreeSteps Tree.TreeChain.
 Import ListNotations.
 
-Theorem C07_init_alt : forall h, Inv_flags (alt_init h).
-Proof. exact alt_init_inv. Qed.
+Theorem C07_init_alt : forall h, Inv_flags (alt_init h) /\ tip_ok (alt_init h).
+Proof. exact alt_init_good. Qed.
 Print Assumptions C07_init_alt.
 
-Theorem C07_init_pow : forall h w, Inv_flags (pow_init h w).
-Proof. exact pow_init_inv. Qed.
+Theorem C07_init_pow : forall h w, Inv_flags (pow_init h w) /\ tip_ok (pow_init h w).
+Proof. exact pow_init_good. Qed.
 Print Assumptions C07_init_pow.
 
-Theorem C07_step_partial : forall s o, Inv_flags s -> flag_op o -> Inv_flags (step s o).
-Proof. exact step_inv_partial. Qed.
+Theorem C07_step_partial : forall s o, Inv_flags s /\ tip_ok s -> Inv_flags (step s o) /\ tip_ok (step s o).
+Proof. exact step_good. Qed.
 Print Assumptions C07_step_partial.
 
-Theorem C07_run_partial : forall ops, Forall flag_op ops -> forall s, Inv_flags s -> Inv_flags (run s ops).
-Proof. exact run_inv_partial. Qed.
+Theorem C07_run_partial : forall ops s, Inv_flags s /\ tip_ok s -> Inv_flags (run s ops) /\ tip_ok (run s ops).
+Proof. exact run_good. Qed.
 Print Assumptions C07_run_partial.
 
-(* a block is valid only if its parent is not failed *)
+(* a block is valid only if its parent is not failed; every child of a failed block is failed *)
 Theorem C07_valid_parent_not_failed :
   forall s, Inv_flags s -> forall p x q y,
     find_blk p (blocks s) = Some x -> bparent x = Some q -> find_blk q (blocks s) = Some y ->
     is_valid L_TREE (bst x) = true -> failed (bst y) = false.
 Proof. exact valid_parent_not_failed. Qed.
 Print Assumptions C07_valid_parent_not_failed.
+
+Theorem C07_failed_parent_failed_child :
+  forall s, Inv_flags s -> forall p x q y,
+    find_blk p (blocks s) = Some x -> bparent x = Some q -> find_blk q (blocks s) = Some y ->
+    failed (bst y) = true -> fchild (bst x) = true.
+Proof. exact failed_parent_failed_child. Qed.
+Print Assumptions C07_failed_parent_failed_child.
+
+(* every descendant of a failed block carries FAILED_CHILD *)
+Theorem C07_descendants_of_failed :
+  forall l t yt, wf l -> fl_ok l -> find_blk t l = Some yt -> failed (bst yt) = true ->
+  forall p y, find_blk p l = Some y -> sub l t p = true -> p <> t -> fchild (bst y) = true.
+Proof. exact desc_failed_fchild. Qed.
+Print Assumptions C07_descendants_of_failed.
+
+(* the best chain runs through non-failed blocks only *)
+Theorem C07_best_chain_valid :
+  forall s, Inv_flags s -> tip_ok s ->
+  forall a z, In a (path (blocks s) (tip s)) -> find_blk a (blocks s) = Some z -> failed (bst z) = false.
+Proof. exact chain_valid. Qed.
+Print Assumptions C07_best_chain_valid.
